@@ -171,6 +171,11 @@ func emitCast(cw *caseWriter, prop, callee string, src interface{}, nontrivial b
 	if err == nil && pan == "" {
 		extFor(res, ext)
 	}
+	if cv, ok := carriedInt(src); ok {
+		// a number in a carrier outside the supported set: its exact value (truncated toward zero), so that the
+		// oracle can tell a rejected carrier (fine) from one that is accepted with another value (C09)
+		ext["cv"] = cv
+	}
 	s := dynStr(src)
 	cw.count("callee:" + callee)
 	cw.count("src:" + tyName(src))
@@ -525,6 +530,88 @@ func exoticNumbers() []interface{} {
 		stringerNum(300), textNum("300"), complex(300, 0), complex64(5), uintptr(300), uintptr(math.MaxUint64),
 		sql.NullInt64{Int64: 300, Valid: true}, sql.NullString{String: "300", Valid: true}, reflect.ValueOf(300), atomicOf(300),
 	}
+}
+
+// carriedInt: the integer value (truncated toward zero) of a number held by a carrier outside the supported set.
+func carriedInt(src interface{}) (string, bool) {
+	ofFloat := func(f float64) (string, bool) {
+		if math.IsNaN(f) || math.IsInf(f, 0) {
+			return "", false
+		}
+		bi, _ := new(big.Float).SetFloat64(math.Trunc(f)).Int(nil)
+		return bi.String(), true
+	}
+	ofText := func(t string) (string, bool) {
+		if bi, ok := new(big.Int).SetString(t, 10); ok {
+			return bi.String(), true
+		}
+		return "", false
+	}
+	switch v := src.(type) {
+	case *big.Int:
+		if v == nil {
+			return "", false
+		}
+		return v.String(), true
+	case big.Int:
+		return v.String(), true
+	case *big.Float:
+		bi, _ := v.Int(nil)
+		return bi.String(), true
+	case *big.Rat:
+		return new(big.Int).Quo(v.Num(), v.Denom()).String(), true
+	case json.RawMessage:
+		return ofText(strings.Trim(string(v), `"`))
+	case time.Duration:
+		return strconv.FormatInt(int64(v), 10), true
+	case time.Month:
+		return strconv.Itoa(int(v)), true
+	case myInt:
+		return strconv.Itoa(int(v)), true
+	case myByte:
+		return strconv.Itoa(int(v)), true
+	case myFloat:
+		return ofFloat(float64(v))
+	case myString:
+		return ofText(string(v))
+	case stringerNum:
+		return strconv.Itoa(int(v)), true
+	case textNum:
+		return ofText(string(v))
+	case uintptr:
+		return strconv.FormatUint(uint64(v), 10), true
+	case *int:
+		if v != nil {
+			return strconv.Itoa(*v), true
+		}
+	case *uint64:
+		if v != nil {
+			return strconv.FormatUint(*v, 10), true
+		}
+	case *string:
+		if v != nil {
+			return ofText(*v)
+		}
+	case *json.Number:
+		if v != nil {
+			return ofText(string(*v))
+		}
+	case sql.NullInt64:
+		return strconv.FormatInt(v.Int64, 10), true
+	case sql.NullString:
+		return ofText(v.String)
+	case *atomic.Int64:
+		return strconv.FormatInt(v.Load(), 10), true
+	case complex128:
+		if imag(v) == 0 {
+			return ofFloat(real(v))
+		}
+	case complex64:
+		if imag(v) == 0 {
+			return ofFloat(float64(real(v)))
+		}
+	}
+	return "", false
 }
 
 type stringerNum int
